@@ -316,6 +316,15 @@ def run_case(case):
         rec["pred"] = "true" if p is True else "false" if p is False else "exc:NotBool"
     except Exception as ex:
         rec["pred"] = "exc:" + type(ex).__name__
+    if case.get("kseed", 0) % 4 == 0:
+        # the caller scribbles on what the accessors handed out (they are copies): the dataset must not change
+        try:
+            ds.universe.clear()
+            for r in ds.rankings:
+                r.domain.clear()
+            ds.get_positions().fill(7)
+        except Exception:
+            pass
     try:
         # the numbering of the elements by the dataset (public mapping): per abstract element 1..max, -1 when absent
         inv = {am.elem(e): int(i) for e, i in ds.mapping_elem_id.items()}
